@@ -245,6 +245,79 @@ fn parse_counting(input: &[u8], branch: BranchId) -> (Result<std::io::Result<Par
     })
 }
 
+/// A reader that hands out the input in short, irregular pieces (what a socket or pipe does and the
+/// `io::Read` contract allows); `pattern` = piece lengths, cycled.
+struct ChunkReader<'a> {
+    data: &'a [u8],
+    pos: usize,
+    pattern: Vec<usize>,
+    k: usize,
+    short_reads: usize,
+}
+
+impl<'a> ChunkReader<'a> {
+    fn new(data: &'a [u8], pattern: Vec<usize>) -> Self {
+        ChunkReader { data, pos: 0, pattern, k: 0, short_reads: 0 }
+    }
+}
+
+impl<'a> std::io::Read for ChunkReader<'a> {
+    fn read(&mut self, buf: &mut [u8]) -> std::io::Result<usize> {
+        let want = self.pattern[self.k % self.pattern.len()].max(1);
+        self.k += 1;
+        let n = want.min(buf.len()).min(self.data.len() - self.pos);
+        if n < buf.len() && n > 0 {
+            self.short_reads += 1;
+        }
+        buf[..n].copy_from_slice(&self.data[self.pos..self.pos + n]);
+        self.pos += n;
+        Ok(n)
+    }
+}
+
+/// The outcome of a parse must not depend on how the reader delivers the bytes: the same input
+/// through a reader that returns short reads must be accepted/rejected alike, consume the same
+/// number of bytes and yield the same identifier, authorizing commitment and serialisation.
+fn check_reader_independence(c: &mut Ctx, input: &[u8], branch: BranchId, reference: Option<&Parsed>, ctx: &str) {
+    let pattern: Vec<usize> = match c.rng.gen_range(0..4) {
+        0 => vec![1],
+        1 => vec![c.rng.gen_range(2..9)],
+        2 => (0..c.rng.gen_range(2..7)).map(|_| c.rng.gen_range(1..70)).collect(),
+        _ => vec![c.rng.gen_range(1..4), c.rng.gen_range(30..600), 1],
+    };
+    let pat = format!("{pattern:?}");
+    let mut cr = ChunkReader::new(input, pattern);
+    let res = guard(|| Transaction::read(&mut cr, branch));
+    c.r.count("chunked_reader_parses", 1);
+    c.r.count("chunked_reader_short_reads", cr.short_reads as u64);
+    let rp = |what: &str| {
+        let mut v = replay_tx(input, branch, what);
+        v["chunk_pattern"] = json!(pat);
+        v
+    };
+    match (res, reference) {
+        (Err(p), _) => c.r.violation(&format!("C03:tx-read:panic:{}", panic_class(&p)), format!("Transaction::read panicked when the bytes arrived in pieces {pat} ({ctx}): {p}"), rp("Transaction::read(chunked)")),
+        (Ok(Err(_)), None) => {}
+        (Ok(Err(e)), Some(_)) => c.r.violation("C03:reader-dependent:accepted-from-slice-rejected-in-pieces", format!("input accepted from a slice is rejected when delivered in pieces {pat} ({ctx}): {e}"), rp("Transaction::read(chunked)")),
+        (Ok(Ok(_)), None) => c.r.violation("C03:reader-dependent:rejected-from-slice-accepted-in-pieces", format!("input rejected from a slice is accepted when delivered in pieces {pat} ({ctx})"), rp("Transaction::read(chunked)")),
+        (Ok(Ok(t)), Some(r)) => {
+            let ver = txgen::ver_of(t.version()).label();
+            if cr.pos != r.pos {
+                c.r.violation(&format!("C03:reader-dependent:consumed:{ver}"), format!("consumed {} bytes from a slice but {} when delivered in pieces {pat} ({ctx})", r.pos, cr.pos), rp("Transaction::read(chunked)"));
+            }
+            if t.txid() != r.tx.txid() {
+                c.r.violation(&format!("C03:reader-dependent:txid:{ver}"), format!("txid depends on how the reader delivers the bytes: {} from a slice, {} in pieces {pat} ({ctx})", hexs(r.tx.txid().as_ref()), hexs(t.txid().as_ref())), rp("Transaction::read(chunked)"));
+            }
+            if t.auth_commitment().as_bytes() != r.tx.auth_commitment().as_bytes() {
+                c.r.violation(&format!("C03:reader-dependent:auth-commitment:{ver}"), format!("authorizing commitment depends on how the reader delivers the bytes (pieces {pat}; {ctx})"), rp("Transaction::read(chunked)"));
+            }
+            if txgen::write_tx(&t).ok() != txgen::write_tx(&r.tx).ok() {
+                c.r.violation(&format!("C03:reader-dependent:bytes:{ver}"), format!("serialisation of the parsed value depends on how the reader delivers the bytes (pieces {pat}; {ctx})"), rp("Transaction::read(chunked)"));
+            }
+        }
+    }
+}
+
 /// Names the field in which the re-serialisation of an accepted value departs from the consumed
 /// input (located with the independent parser), so that a violation class names the root cause
 /// rather than the mutation operator that happened to expose it.
@@ -291,11 +364,17 @@ fn check_bytes(c: &mut Ctx, input: &[u8], branch: BranchId, op: &str, class: &st
         }
         Ok(Err(_)) => {
             c.r.count("mutants_rejected", 1);
+            if c.rng.gen_range(0..8) == 0 {
+                check_reader_independence(c, input, branch, None, &format!("{op} on {class}"));
+            }
             return Some(false);
         }
         Ok(Ok(p)) => p,
     };
     c.r.count("mutants_accepted", 1);
+    if c.rng.gen_range(0..4) == 0 {
+        check_reader_independence(c, input, branch, Some(&parsed), &format!("{op} on {class}"));
+    }
     if let Some(why) = must_reject {
         c.r.violation(
             &format!("C03:tx-read:accepted:{why}:{class}"),
@@ -422,6 +501,7 @@ fn positive(c: &mut Ctx, parts: &Parts, bytes: &[u8], branch: BranchId, origin: 
     if suffix_len > 0 {
         c.r.count("suffix_cases", 1);
     }
+    check_reader_independence(c, &input, branch, Some(&parsed), origin);
     let tx = parsed.tx;
     let seen = txgen::tx_to_parts(&tx);
     if let Some(d) = txgen::parts_diff(parts, &seen) {
